@@ -268,6 +268,7 @@ pub fn parse(line: &str) -> Op {
 
 /// runs one op: returns (impl observable, oracle failure)
 fn eval(op: &Op) -> (String, Option<String>) {
+    crate::mark(&op.line());
     let imp = match crate::catch(|| op.run_impl()) {
         Ok(s) => s,
         Err(site) => format!("PANIC {}", site),
